@@ -289,4 +289,149 @@ def step (s : IOState) : List String → IOState × String
     | none => (s, "bad-op")
   | _ => (s, "bad-op")
 
+/-! ### tensor shapes and torch broadcasting (C08: `(B, 1)` against `(B,)`) -/
+
+/-- the shape of a tensor; `[]` = a 0-d tensor / a Python number -/
+abbrev Shape := List Nat
+
+/-- one axis of torch broadcasting: equal sizes, or one of them 1; otherwise RuntimeError (`none`) -/
+def bdim (a b : Nat) : Option Nat :=
+  if a = b then some a else if a = 1 then some b else if b = 1 then some a else none
+
+/-- broadcasting of two shapes given from the LAST axis to the first -/
+def bcastRev : Shape → Shape → Option Shape
+  | [], l => some l
+  | a :: as, [] => some (a :: as)
+  | a :: as, b :: bs =>
+    match bdim a b, bcastRev as bs with
+    | some d, some r => some (d :: r)
+    | _, _ => none
+
+/-- the shape of `x ∘ y` for an element-wise binary torch operation (`none` = torch raises) -/
+def bcast (s t : Option Shape) : Option Shape :=
+  match s, t with
+  | some s, some t => (bcastRev s.reverse t.reverse).map List.reverse
+  | _, _ => none
+
+/-- a Python number / 0-d tensor -/
+def scalarS : Option Shape := some []
+
+/-- position of axis `d` (negative: from the end) in a tensor of `n` axes -/
+def normDim (n : Nat) (d : Int) : Option Nat :=
+  if 0 ≤ d then (if d.toNat < n then some d.toNat else none)
+  else (if (-d).toNat ≤ n then some (n - (-d).toNat) else none)
+
+def eraseAt : Shape → Nat → Shape
+  | [], _ => []
+  | _ :: r, 0 => r
+  | a :: r, k + 1 => a :: eraseAt r k
+
+def insertAt : Shape → Nat → Nat → Shape
+  | l, 0, v => v :: l
+  | [], _ + 1, v => [v]
+  | a :: r, k + 1, v => a :: insertAt r k v
+
+def setAt : Shape → Nat → Nat → Shape
+  | [], _, _ => []
+  | _ :: r, 0, v => v :: r
+  | a :: r, k + 1, v => a :: setAt r k v
+
+/-- `t.max(dim=d, keepdim=keep)[0]`, `t.argmax(dim=d)`, `t.mean(dim=d)`: axis `d` removed (or kept with
+    size 1); reducing an EMPTY axis with max / argmax raises -/
+def sReduce (d : Int) (keep : Bool) : Option Shape → Option Shape
+  | some s =>
+    match normDim s.length d with
+    | some k => if s.getD k 0 = 0 then none else some (if keep then setAt s k 1 else eraseAt s k)
+    | none => none
+  | none => none
+
+/-- `t.unsqueeze(d)` -/
+def sUnsqueeze (d : Int) : Option Shape → Option Shape
+  | some s => (normDim (s.length + 1) d).map (fun k => insertAt s k 1)
+  | none => none
+
+/-- `t.squeeze(d)`: axis `d` is dropped only when its size is 1 -/
+def sSqueeze (d : Int) : Option Shape → Option Shape
+  | some s => (normDim s.length d).map (fun k => if s.getD k 0 = 1 then eraseAt s k else s)
+  | none => none
+
+/-- `t.squeeze()` without a dim: EVERY axis of size 1 is dropped (also a batch axis of size 1) -/
+def sSqueezeAll : Option Shape → Option Shape
+  | some s => some (s.filter (· ≠ 1))
+  | none => none
+
+def numel (s : Shape) : Nat := s.foldl (· * ·) 1
+
+/-- `t.view(new)` / `t.reshape(new)`; an entry `-1` of `new` is inferred -/
+def sView (new : List Int) : Option Shape → Option Shape
+  | some s =>
+    let known := (new.filter (0 ≤ ·)).map Int.toNat
+    let holes := (new.filter (· < 0)).length
+    if holes = 0 then (if numel known = numel s then some known else none)
+    else if holes = 1 ∧ numel known ≠ 0 ∧ numel s % numel known = 0 then
+      some (new.map (fun v => if v < 0 then numel s / numel known else v.toNat))
+    else none
+  | none => none
+
+/-- all pairs `j ≠ k`: the index tensor may be smaller than the source away from the gather axis -/
+def gatherFits : Nat → Shape → Shape → Nat → Bool
+  | _, [], [], _ => true
+  | k, a :: as, b :: bs, j => (j == k || decide (b ≤ a)) && gatherFits k as bs (j + 1)
+  | _, _, _, _ => false
+
+/-- `t.gather(d, idx)`: same number of axes, `idx` not larger than `t` away from axis `d`; the result has the
+    shape of `idx` -/
+def sGather (d : Int) (s idx : Option Shape) : Option Shape :=
+  match s, idx with
+  | some s, some i =>
+    match normDim s.length d with
+    | some k => if gatherFits k s i 0 then some i else none
+    | none => none
+  | _, _ => none
+
+/-- `t.mean()` / `t.sum()` / `nn.MSELoss()` with its mean reduction: a 0-d tensor -/
+def sAll : Option Shape → Option Shape
+  | some _ => some []
+  | none => none
+
+/-- number of axes (`t.ndim`); an error has none -/
+def sNdim : Option Shape → Nat
+  | some s => s.length
+  | none => 0
+
+/-! the hand model of the shapes of a TD learn step: the target `r + γ·q'·(1 − d)` (any order of the factors) has
+    the broadcast shape of reward, next value and done flag; the element-wise loss that of prediction and target -/
+def tdTargetShape (r d q' : Option Shape) : Option Shape := bcast r (bcast q' d)
+def tdLossShape (p r d q' : Option Shape) : Option Shape := bcast p (tdTargetShape r d q')
+
+/-- `Q(s').max(dim=1)[0].unsqueeze(1)` -/
+def maxNextShape (q : Option Shape) : Option Shape := sUnsqueeze 1 (sReduce 1 false q)
+/-- `Q⁻(s').gather(1, Q(s').argmax(dim=1).unsqueeze(1))` -/
+def doubleNextShape (qOn qTg : Option Shape) : Option Shape := sGather 1 qTg (sUnsqueeze 1 (sReduce 1 false qOn))
+
+/-! ### values under broadcasting, for tensors of at most two axes -/
+
+/-- entry `(i, j)` of the broadcast of a tensor with shape `s` and row-major data `d` -/
+def bread (s : Option Shape) (d : List Rat) (i j : Nat) : Rat :=
+  match s with
+  | some [r, c] => d.getD ((if r = 1 then 0 else i) * c + (if c = 1 then 0 else j)) 0
+  | some [c] => d.getD (if c = 1 then 0 else j) 0
+  | some [] => d.getD 0 0
+  | _ => 0
+
+/-- `f(x, y)` element-wise with torch broadcasting, as a list of rows (`[]` when torch raises or the result has
+    not two axes) -/
+def bzip2 (f : Rat → Rat → Rat) (s1 : Option Shape) (d1 : List Rat) (s2 : Option Shape) (d2 : List Rat) :
+    List (List Rat) :=
+  match bcast s1 s2 with
+  | some [r, c] => (List.range r).map fun i => (List.range c).map fun j => f (bread s1 d1 i j) (bread s2 d2 i j)
+  | _ => []
+
+def sqErr (q t : Rat) : Rat := (q - t) * (q - t)
+
+/-- `nn.MSELoss()(x, y)` as torch computes it: broadcast, square, mean over ALL entries -/
+def mseBroadcast (s1 : Option Shape) (d1 : List Rat) (s2 : Option Shape) (d2 : List Rat) : Rat :=
+  let e := (bzip2 sqErr s1 d1 s2 d2).flatten
+  e.sum / (e.length : Rat)
+
 end Bellman
